@@ -3,11 +3,13 @@ use std::{
     fmt::{self, Debug, Display},
     hash::Hash,
     str::from_utf8_unchecked,
-    sync::{
-        atomic::{AtomicPtr, Ordering},
-        Arc,
-    },
+    sync::{atomic::Ordering, Arc},
 };
+#[cfg(not(sonic_rs_verif))]
+use std::sync::atomic::AtomicPtr;
+
+#[cfg(sonic_rs_verif)]
+use crate::verif::sync::AtomicPtr;
 
 use faststr::FastStr;
 
